@@ -124,4 +124,11 @@ def storeSites : List (Site × String) := [
   (("signal_enum.go", "SignalEnum.errorf", "store", "SignalEnum.parErrID | if se.refs.size() > 0 && se.parErrID != \"\""), "guarded: executed only when parErrID != \"\", which holds only between a failed verifySize and this reset inside a mutator")
 ]
 
+/-- functions of the model files in which an error return is reachable after a mutation of model
+    memory (the error of the mutating call itself excluded; the two error side channels excluded) -/
+def atomicSites : List (Site × String) := [
+  (("mux_signal.go", "MultiplexerSignal.modifySignalSize", "error-after-mutation", "call SignalLayout.modifyStartBitsOnGrow -> return modifyStartBitsOnShrink(..)"), "KNOWN FINDING D73: the groups are modified one by one, a later group can fail after earlier ones were changed; verified up-front by verifySignalSizeAmount for every group of the RESIZED signal, so the error is reachable only from states already corrupted by D35 / D73 (C07_err_unchanged holds on admissible reachable states)"),
+  (("node.go", "Node.RemoveInterface", "error-after-mutation", "store NodeInterface.number -> return RemoveNodeInterface(..)"), "unreachable: interface numbers are distinct and renumbering starts only AFTER the one match (found), so the detaching call - the only error - always precedes every `number--`; the model's nodeRemoveIface detaches first (C06g_cause_iff_nodeRemoveIface)")
+]
+
 end Acme.Expect
